@@ -112,6 +112,11 @@ func (k Keeper) FindSPByDataId(ctx sdk.Context, dataId string) []nodetypes.Node 
 		if !found {
 			continue
 		}
+		if shard.Status != ordertypes.ShardCompleted {
+			// only providers that actually store the current version are re-used, not ones that timed out
+			// on it or have not taken over a migration yet
+			continue
+		}
 		node, found := k.node.GetNode(ctx, shard.Sp)
 		if found {
 			nodes = append(nodes, node)
